@@ -26,8 +26,10 @@ def andThen {α β : Type} (x : Except Err α) (k : α → Except Err β) : Exce
 @[simp] theorem andThen_error {α β : Type} (e : Err) (k : α → Except Err β) :
     andThen (.error e) k = .error e := rfl
 
-/-- every error of `x` is `LookupError` -/
-def OnlyLookup {α : Type} (x : Except Err α) : Prop := ∀ e, x = .error e → e = .lookup
+/-- every error of `x` is `e0` -/
+def OnlyErr {α : Type} (e0 : Err) (x : Except Err α) : Prop := ∀ e, x = .error e → e = e0
+
+abbrev OnlyLookup {α : Type} (x : Except Err α) : Prop := OnlyErr .lookup x
 
 theorem flatMapM_cons {α β : Type} (f : α → Except Err (List β)) (x : α) (xs : List α) :
     flatMapM f (x :: xs) = andThen (f x) (fun ys => andThen (flatMapM f xs) (fun zs => .ok (ys ++ zs))) := by
@@ -61,8 +63,8 @@ theorem flatMapM_append {α β : Type} (f : α → Except Err (List β)) (xs ys 
         | error e => rfl
         | ok c => simp [andThen]
 
-theorem flatMapM_onlyLookup {α β : Type} (f : α → Except Err (List β)) (xs : List α)
-    (hf : ∀ a, OnlyLookup (f a)) : OnlyLookup (flatMapM f xs) := by
+theorem flatMapM_onlyLookup {α β : Type} {e0 : Err} (f : α → Except Err (List β)) (xs : List α)
+    (hf : ∀ a, OnlyErr e0 (f a)) : OnlyErr e0 (flatMapM f xs) := by
   induction xs with
   | nil => intro e h; simp at h
   | cons x xs ih =>
@@ -82,8 +84,8 @@ theorem flatMapM_onlyLookup {α β : Type} (f : α → Except Err (List β)) (xs
 
 /-- bind law of `flatMapM`; the two sides meet errors in a different order, so it needs all
     errors to be the same -/
-theorem flatMapM_bind {α β γ : Type} (f : α → Except Err (List β)) (g : β → Except Err (List γ))
-    (hf : ∀ a, OnlyLookup (f a)) (hg : ∀ b, OnlyLookup (g b)) (xs : List α) :
+theorem flatMapM_bind {α β γ : Type} {e0 : Err} (f : α → Except Err (List β)) (g : β → Except Err (List γ))
+    (hf : ∀ a, OnlyErr e0 (f a)) (hg : ∀ b, OnlyErr e0 (g b)) (xs : List α) :
     flatMapM (fun a => andThen (f a) (flatMapM g)) xs = andThen (flatMapM f xs) (flatMapM g) := by
   induction xs with
   | nil => rfl
@@ -142,6 +144,41 @@ theorem denOps_onlyLookup (root : Node) (strict : Bool) :
         simp [h1]
     simp only [denOps, hc]
     exact flatMapM_onlyLookup _ _ (fun p => denOps_onlyLookup root strict r hz' p)
+
+/-- without `strict` a failed lookup selects nothing, so the only possible error is the
+    `ValueError` of a zero slice step -/
+theorem denOps_lax_onlyValue (root : Node) :
+    ∀ (ops : List Op) (el : Pos), OnlyErr .value (denOps root false ops el)
+  | [], el => by intro e h; simp [denOps] at h
+  | .top :: r, el => by simp only [denOps]; exact denOps_lax_onlyValue root r []
+  | .up :: r, el => by simp only [denOps]; exact denOps_lax_onlyValue root r _
+  | .here :: r, el => by simp only [denOps]; exact denOps_lax_onlyValue root r _
+  | .name d :: r, el => by
+    simp only [denOps]
+    split
+    · exact denOps_lax_onlyValue root r _
+    · intro e h; simp at h
+  | .slice a b c :: r, el => by
+    simp only [denOps]
+    split
+    · intro e h; simp only [Except.error.injEq] at h; exact h.symm
+    · exact flatMapM_onlyLookup _ _ (fun p => denOps_lax_onlyValue root r p)
+
+/-- the situations in which every error of an evaluation is the same one: no zero stride
+    (only `LookupError`), or non-strict lookups (only `ValueError`).  With strict lookups AND a zero
+    stride, which of the two is raised first depends on the order of evaluation. -/
+def Uni (strict : Bool) (ops : List Op) : Prop := NoZero ops = true ∨ strict = false
+
+def errOf (strict : Bool) : Err := if strict then .lookup else .value
+
+theorem denOps_onlyErr (root : Node) (strict : Bool) (ops : List Op) (hu : Uni strict ops) (el : Pos) :
+    OnlyErr (errOf strict) (denOps root strict ops el) := by
+  cases strict with
+  | false => exact denOps_lax_onlyValue root ops el
+  | true =>
+    rcases hu with h | h
+    · exact denOps_onlyLookup root true ops h el
+    · cases h
 
 /-! ### one context: `runCtx` against `denOps` -/
 
@@ -349,10 +386,10 @@ theorem denOps_spawnOf (root : Node) (strict : Bool) (ops rest : List Op) (h : a
       subst hs
       simp [hd]
 
-theorem spawnOf_onlyLookup (root : Node) (strict : Bool) (ops : List Op) (hz : NoZero ops = true) (el : Pos) :
-    OnlyLookup (spawnOf root strict ops el) := by
+theorem spawnOf_onlyLookup (root : Node) (strict : Bool) (ops : List Op) (hz : Uni strict ops) (el : Pos) :
+    OnlyErr (errOf strict) (spawnOf root strict ops el) := by
   intro e he
-  apply denOps_onlyLookup root strict ops hz el e
+  apply denOps_onlyErr root strict ops hz el e
   rw [denOps_of_runCtx]
   unfold spawnOf at he
   cases hr : runCtx root strict ops el with
@@ -361,7 +398,7 @@ theorem spawnOf_onlyLookup (root : Node) (strict : Bool) (ops : List Op) (hz : N
 
 /-- a whole level of the work list = the depth-first reading applied to each element in turn -/
 theorem work_level (root : Node) (strict : Bool) :
-    ∀ (n : Nat) (ops : List Op), ops.length ≤ n → NoZero ops = true → ∀ els : List Pos,
+    ∀ (n : Nat) (ops : List Op), ops.length ≤ n → Uni strict ops → ∀ els : List Pos,
       work root strict (els.map (fun el => (ops, el))) = flatMapM (denOps root strict ops) els
   | n, ops, hn, hz, els => by
     have hw := work_pass root strict (els.map (fun el => (ops, el))) []
@@ -375,13 +412,13 @@ theorem work_level (root : Node) (strict : Bool) :
       | ok fs => simp [work]
     | some rest =>
       have hlt := afterSlice_length ops rest ha
-      have hz' := afterSlice_noZero ops rest ha hz
+      have hz' : Uni strict rest := hz.imp (afterSlice_noZero ops rest ha) id
       rw [pass_some root strict ops rest ha els]
       have hfun : denOps root strict ops
           = fun el => andThen (spawnOf root strict ops el) (flatMapM (denOps root strict rest)) :=
         funext (denOps_spawnOf root strict ops rest ha)
       rw [hfun, flatMapM_bind _ _ (spawnOf_onlyLookup root strict ops hz)
-        (denOps_onlyLookup root strict rest hz')]
+        (denOps_onlyErr root strict rest hz')]
       cases flatMapM (spawnOf root strict ops) els with
       | error e => rfl
       | ok ks =>
